@@ -107,7 +107,7 @@ theorem callInv_of_cert {version : Nat} {fp : Bool} {p : Prog} {c : ProgCert} (c
     simp only [fragmentOnCert, Bool.and_eq_true, List.all_eq_true, Bool.or_eq_true, Bool.not_eq_true',
       Bool.not_true, Bool.false_or] at hf'
     obtain ⟨⟨_, hpnd, hreach⟩, _⟩ := hf'
-    refine callInv_fp_of (P := ⟨cx, p, c.prog, version, true, false, false⟩) rfl rfl hpnd
+    refine callInv_fp_of (P := ⟨cx, p, c.prog, version, true, false, false⟩) rfl rfl rfl hpnd
       (fun f sd hsd hpres => subOkC_of_cert hf hsd hpres) ?_
     intro f0 sd0 hsd0 hpres0 g hg hre h hh
     have hmem0 : sd0 ∈ p.subs := List.mem_of_find?_eq_some hsd0
@@ -189,7 +189,7 @@ theorem compile_correct_validated_prog (version : Nat) (fp : Bool) (p : Prog) (P
     exact hf.1.1.1
   have hP := progOK_of_cert (version := version) (strict := false) cx hf hs
   have key := to_avm hk (genProg_correct_of ⟨cx, p, c.prog, version, fp, false, false⟩ hP
-    (callPresent_of_cert cx hcl) (callInv_of_cert cx hf) (callEntry_plain hP (by simp [PCtx.sref])) (main_of_cert hm) hwm w0 fuel)
+    (callPresent_of_cert cx hcl) (callInv_of_cert cx hf) (callEntry_plain hP rfl) (main_of_cert hm) hwm w0 fuel)
   revert key
   cases Src.runProg cx p fuel w0 with
   | done v w =>
@@ -231,15 +231,16 @@ theorem compile_correct_validated_prog_dyn_partial (version : Nat) (p : Prog) (P
   | fail f => cases f <;> (intro key; exact key)
   | outOfFuel => intro _; trivial
 
-/-- **Composition with by-reference parameters (stage 3, scratch-slot convention)**: as
-    `C02Gen.genProg_correct_ref` — under the by-reference discipline (checked by `composedOk … true true`
-    for the main routine and the certified routines) the range check of the generated `loads` /
-    `stores` cannot fail where the source run succeeds; the only permitted deviation is the
-    operand-stack limit. -/
-theorem compile_correct_validated_prog_ref (version : Nat) (p : Prog) (P : Program) (c : ProgCert)
-    (h : composedOk version false p P c true true = true) (cx : Ctx) (w0 : World) (fuel : Nat) :
+/-- **Composition with by-reference parameters (stage 3, both calling conventions)**: as
+    `C02Gen.genProg_correct_ref` / `genProg_correct_fp_ref` — under the by-reference discipline
+    (checked by `composedOk … true true` for the main routine and the certified routines) the
+    range check of the generated `loads` / `stores` cannot fail where the source run succeeds; the
+    only permitted deviation is the operand-stack limit.  Under the frame-pointer convention the
+    final worlds agree up to the by-value parameter slots (`ignOf true p true = allValSlots p`). -/
+theorem compile_correct_validated_prog_ref (version : Nat) (fp : Bool) (p : Prog) (P : Program) (c : ProgCert)
+    (h : composedOk version fp p P c true true = true) (cx : Ctx) (w0 : World) (fuel : Nat) :
     match Src.runProg cx p fuel w0 with
-    | .done v w => ∃ n, (∃ w', SameW [] w w' ∧ Avm.run cx P n w0 = .done v w')
+    | .done v w => ∃ n, (∃ w', SameW (ignOf fp p true) w w' ∧ Avm.run cx P n w0 = .done v w')
                     ∨ Avm.run cx P n w0 = .fail (.logic "stack overflow")
     | .fail (.unmodelled _) => True
     | .fail _ => ∃ n f, Avm.run cx P n w0 = .fail f
@@ -248,16 +249,16 @@ theorem compile_correct_validated_prog_ref (version : Nat) (p : Prog) (P : Progr
   obtain ⟨⟨⟨⟨hf, hm⟩, hs⟩, hcl⟩, hk⟩ := h
   have hf' := hf
   simp only [fragmentOnCert, Bool.and_eq_true, List.all_eq_true, Bool.or_eq_true, Bool.not_eq_true',
-    Bool.not_false, Bool.and_self, Bool.not_true, Bool.false_or, Option.isNone_iff_eq_none] at hf'
-  obtain ⟨⟨⟨hwm, _⟩, _⟩, hcm, hcs⟩ := hf'
-  let Q : PCtx := ⟨cx, p, c.prog, version, false, true, true⟩
+    Bool.not_true, Bool.false_or, Option.isNone_iff_eq_none] at hf'
+  obtain ⟨⟨⟨hwm, _⟩, hfpp⟩, hcm, hcs⟩ := hf'
+  let Q : PCtx := ⟨cx, p, c.prog, version, fp, true, true⟩
   have hP : ProgOK Q := progOK_of_cert cx hf hs
   have hT : ∀ g, (certHas c g = true ∨ findSub p g = none) → PresentT Q g := by
     intro g hg sd hsd
     rcases hg with hg | hg
     · exact hg
     · rw [hg] at hsd; cases hsd
-  have hcl' : ∀ f sd, findSub p f = some sd → Present Q f → ∀ g, g ∈ callsOf sd.body → PresentT Q g := by
+  have hcalls : ∀ f sd, findSub p f = some sd → Present Q f → ∀ g, g ∈ callsOf sd.body → PresentT Q g := by
     intro f sd hsd hpres g hg
     have hmem : sd ∈ p.subs := List.mem_of_find?_eq_some hsd
     have hid : sd.id = f := findSub_id hsd
@@ -266,12 +267,40 @@ theorem compile_correct_validated_prog_ref (version : Nat) (p : Prog) (P : Progr
       have : (c.prog.subs.lookup (subLabel f)).isSome = true := hpres
       rw [h1] at this; cases this
     · exact hT g (h1 g hg)
-  have hC : ValCtx p true (PresentT Q) :=
-    valCtx_of (P := Q) (fun f sd hsd hpres => subOkC_of_cert hf hsd hpres) hcl'
+  have hcl' : ∀ f sd, findSub p f = some sd → Present Q f →
+      ∃ l, (subK fp p sd true true).okCalls = some l ∧ ∀ g, g ∈ l → PresentT Q g := by
+    intro f sd hsd hpres
+    cases fp with
+    | false => exact ⟨callsOf sd.body, rfl, hcalls f sd hsd hpres⟩
+    | true =>
+      refine ⟨okCallsOf p sd, rfl, fun g hg => hcalls f sd hsd hpres g ?_⟩
+      simp only [okCallsOf, List.mem_filter] at hg
+      exact hg.1
+  have hsubs : ∀ f sd, findSub Q.p f = some sd → Present Q f → subOkC fp Q.p sd Q.dyn true = true :=
+    fun f sd hsd hpres => subOkC_of_cert hf hsd hpres
+  have hC : ValCtx p fp true (PresentT Q) := valCtx_of (P := Q) hsubs hcl'
   have hkv : ∀ X cfg K cur, RoutOK Q X cfg K cur → KV Q.p (PresentT Q) X.act K :=
     fun X cfg K cur hR => kv_of (P := Q) rfl (fun g hg => hT g (hcm g hg)) hcl' hR
-  have key := to_avm hk (genProg_correct_of Q hP (callPresent_of_cert cx hcl) (callInv_ref rfl hC hkv)
-    (callEntry_ref rfl hC hkv) (main_of_cert hm) hwm w0 fuel)
+  have hI : CallInv Q := by
+    cases hfp : fp with
+    | false => subst hfp; exact callInv_ref rfl rfl hC hkv
+    | true =>
+      subst hfp
+      rcases hfpp with hh | ⟨hpnd, hreach⟩
+      · cases hh
+      · refine callInv_fp_ref (P := Q) rfl rfl hpnd hsubs ?_ hC hkv
+        intro f0 sd0 hsd0 hpres0 g hg hre h hh
+        have hmem0 : sd0 ∈ p.subs := List.mem_of_find?_eq_some hsd0
+        have hid0 : sd0.id = f0 := findSub_id hsd0
+        rcases hreach sd0 hmem0 with h1 | h1
+        · simp only [certHas, hid0] at h1
+          have : (c.prog.subs.lookup (subLabel f0)).isSome = true := hpres0
+          rw [h1] at this; cases this
+        · rcases h1 g hg with h2 | h2
+          · rw [hre] at h2; cases h2
+          · exact h2 h hh
+  have key := to_avm hk (genProg_correct_of Q hP (callPresent_of_cert cx hcl) hI
+    (callEntry_ref hP rfl hC hkv) (main_of_cert hm) hwm w0 fuel)
   revert key
   cases Src.runProg cx p fuel w0 with
   | done v w =>
@@ -454,5 +483,108 @@ example : ∃ p, renamedProg 8 true factProg0 fact8Teal = .ok p ∧
       | .fail _ => ∃ n f, Avm.run cx fact8Teal n w0 = .fail f
       | .outOfFuel => True :=
   compile_correct_composedB 8 true factProg0 fact8Teal fact8Teal_composed
+
+/-! ### by-reference parameters: real compiler output for both conventions -/
+
+/-- the driver's form of `compile_correct_validated_prog_ref` -/
+theorem compile_correct_composedB_ref (version : Nat) (fp : Bool) (p0 : Prog) (P : Program)
+    (h : composedB version fp p0 P true true = true) :
+    ∃ p, renamedProg version fp p0 P = .ok p ∧
+      ∀ (cx : Ctx) (w0 : World) (fuel : Nat),
+        match Src.runProg cx p fuel w0 with
+        | .done v w => ∃ n, (∃ w', SameW (ignOf fp p true) w w' ∧ Avm.run cx P n w0 = .done v w')
+                        ∨ Avm.run cx P n w0 = .fail (.logic "stack overflow")
+        | .fail (.unmodelled _) => True
+        | .fail _ => ∃ n f, Avm.run cx P n w0 = .fail f
+        | .outOfFuel => True := by
+  unfold composedB at h
+  cases hv : validateComposed version fp p0 P true true with
+  | error e => rw [hv] at h; cases h
+  | ok b =>
+    rw [hv] at h
+    simp only [] at h
+    subst h
+    unfold validateComposed at hv
+    cases hp : renamedProg version fp p0 P with
+    | error e => rw [hp] at hv; cases hv
+    | ok p =>
+      rw [hp] at hv
+      cases hc : validateProgCert version fp p0 P with
+      | error e => rw [hc] at hv; cases hv
+      | ok cv =>
+        obtain ⟨c, v⟩ := cv
+        rw [hc] at hv
+        simp only [bind, Except.bind, pure, Except.pure, Except.ok.injEq] at hv
+        exact ⟨p, rfl, fun cx w0 fuel => compile_correct_validated_prog_ref version fp p P c hv cx w0 fuel⟩
+
+/-- `inc(x: ScratchVar) = x.store(x.load() + Int(1))`;  main `v.store(7); inc(v); Return(v.load())`
+    (variables 256 = `v`, 257 = the parameter cell are automatically numbered) -/
+def incProg0 : Prog :=
+  { subs := [{ id := 0, name := "inc", params := [(.ref, 257)], hasRet := false,
+               body := .prim "vstores" [] [.load 257, .prim "+" [] [.prim "vloads" [] [.load 257], .int 1]],
+               locals := [257], reenters := [] }],
+    main := .seq [.store 256 (.int 7), .call 0 [.index 256], .ret (some (.load 256))] }
+
+/-- PyTeal, version 6 (scratch-slot convention): the reference is the slot number `int 0` -/
+def incTeal : Program := #[
+  ⟨⟨"#pragma", ["version", "6"]⟩, .pragma "version" "6"⟩,
+  ⟨⟨"int", ["7"]⟩, .pushInt 7⟩,
+  ⟨⟨"store", ["0"]⟩, .store 0⟩,
+  ⟨⟨"int", ["0"]⟩, .pushInt 0⟩,
+  ⟨⟨"callsub", ["inc_0"]⟩, .callsub "inc_0"⟩,
+  ⟨⟨"load", ["0"]⟩, .load 0⟩,
+  ⟨⟨"return", []⟩, .ret⟩,
+  ⟨⟨"inc_0:", []⟩, .label "inc_0"⟩,
+  ⟨⟨"store", ["1"]⟩, .store 1⟩,
+  ⟨⟨"load", ["1"]⟩, .load 1⟩,
+  ⟨⟨"load", ["1"]⟩, .load 1⟩,
+  ⟨⟨"loads", []⟩, .prim "loads" []⟩,
+  ⟨⟨"int", ["1"]⟩, .pushInt 1⟩,
+  ⟨⟨"+", []⟩, .prim "+" []⟩,
+  ⟨⟨"stores", []⟩, .prim "stores" []⟩,
+  ⟨⟨"retsub", []⟩, .retsub⟩]
+
+set_option maxRecDepth 100000 in
+theorem incTeal_composed : composedB 6 false incProg0 incTeal true true = true := by decide +kernel
+
+/-- PyTeal, version 8 (frame-pointer convention): `proto 1 0; frame_dig -1; store 1` copies the
+    reference from the frame into the parameter's scratch slot -/
+def inc8Teal : Program := #[
+  ⟨⟨"#pragma", ["version", "8"]⟩, .pragma "version" "8"⟩,
+  ⟨⟨"int", ["7"]⟩, .pushInt 7⟩,
+  ⟨⟨"store", ["0"]⟩, .store 0⟩,
+  ⟨⟨"int", ["0"]⟩, .pushInt 0⟩,
+  ⟨⟨"callsub", ["inc_0"]⟩, .callsub "inc_0"⟩,
+  ⟨⟨"load", ["0"]⟩, .load 0⟩,
+  ⟨⟨"return", []⟩, .ret⟩,
+  ⟨⟨"inc_0:", []⟩, .label "inc_0"⟩,
+  ⟨⟨"proto", ["1", "0"]⟩, .proto 1 0⟩,
+  ⟨⟨"frame_dig", ["-1"]⟩, .frameDig (-1)⟩,
+  ⟨⟨"store", ["1"]⟩, .store 1⟩,
+  ⟨⟨"load", ["1"]⟩, .load 1⟩,
+  ⟨⟨"load", ["1"]⟩, .load 1⟩,
+  ⟨⟨"loads", []⟩, .prim "loads" []⟩,
+  ⟨⟨"int", ["1"]⟩, .pushInt 1⟩,
+  ⟨⟨"+", []⟩, .prim "+" []⟩,
+  ⟨⟨"stores", []⟩, .prim "stores" []⟩,
+  ⟨⟨"retsub", []⟩, .retsub⟩]
+
+set_option maxRecDepth 100000 in
+theorem inc8Teal_composed : composedB 8 true incProg0 inc8Teal true true = true := by decide +kernel
+
+/-- hence both real TEAL texts compute what the (renamed) program denotes, on every context and
+    world; outside the discipline flags the same inputs are only covered by the partial theorem -/
+example : ∃ p, renamedProg 8 true incProg0 inc8Teal = .ok p ∧
+    ∀ (cx : Ctx) (w0 : World) (fuel : Nat),
+      match Src.runProg cx p fuel w0 with
+      | .done v w => ∃ n, (∃ w', SameW (ignOf true p true) w w' ∧ Avm.run cx inc8Teal n w0 = .done v w')
+                      ∨ Avm.run cx inc8Teal n w0 = .fail (.logic "stack overflow")
+      | .fail (.unmodelled _) => True
+      | .fail _ => ∃ n f, Avm.run cx inc8Teal n w0 = .fail f
+      | .outOfFuel => True :=
+  compile_correct_composedB_ref 8 true incProg0 inc8Teal inc8Teal_composed
+
+set_option maxRecDepth 100000 in
+example : composedB 6 false incProg0 incTeal = false := by decide +kernel
 
 end PyTealV.Proofs.C02Compile
